@@ -19,7 +19,8 @@ import (
 )
 
 type Case struct {
-	Rounds []rx.Round `json:"rounds"`
+	Rounds  []rx.Round `json:"rounds"`
+	Choices []int      `json:"choices,omitempty"` // schedule (empty: default schedule)
 }
 
 var h *hlib.H
@@ -81,7 +82,7 @@ func expectedSeen(rd rx.Round) (seen []string, exact bool) {
 
 func shape(name string) string { return name }
 
-func check(c Case, obs []rx.RoundObs, o rx.Obs) bool {
+func judge(c Case, obs []rx.RoundObs, o rx.Obs) (string, string) {
 	hist := "first-round"
 	for ri, rd := range c.Rounds {
 		if ri > 0 {
@@ -94,15 +95,13 @@ func check(c Case, obs []rx.RoundObs, o rx.Obs) bool {
 			_ = prev
 		}
 		if ri >= len(obs) {
-			h.Violate("C03|round-not-completed|"+rd.Resp+"|"+hist, fmt.Sprintf("%+v: round %d did not complete: %s %s", c.Rounds, ri, o.Failure, o.Setup), c)
-			return false
+			return "C03|round-not-completed|"+rd.Resp+"|"+hist, fmt.Sprintf("%+v: round %d did not complete: %s %s", c.Rounds, ri, o.Failure, o.Setup)
 		}
 		ro := obs[ri]
 		want, _ := expectedSeen(rd)
 		ctxt := fmt.Sprintf("round %d of %+v", ri, c.Rounds)
 		if strings.Contains(ro.Ret, "ctx deadline") || strings.Contains(ro.Ret, "context deadline") {
-			h.Violate("C03|no-final-done|"+rd.Resp+"|"+hist, fmt.Sprintf("%s: the consumer never obtained a final DONE (its context expired); saw %v; call returned %q", ctxt, ro.Seen, ro.Ret), c)
-			return false
+			return "C03|no-final-done|"+rd.Resp+"|"+hist, fmt.Sprintf("%s: the consumer never obtained a final DONE (its context expired); saw %v; call returned %q", ctxt, ro.Seen, ro.Ret)
 		}
 		if strings.Join(ro.Seen, "\n") != strings.Join(want, "\n") {
 			k := 0
@@ -116,27 +115,32 @@ func check(c Case, obs []rx.RoundObs, o rx.Obs) bool {
 			case len(ro.Seen) < len(want) && k == len(ro.Seen):
 				kind = "missing-package"
 			}
-			h.Violate("C03|"+kind+"|"+rd.Beh+"|"+hist, fmt.Sprintf("%s: consumer saw %d packages, expected %d; first difference at %d: got %s want %s\nall seen: %v\nreturn: %s", ctxt, len(ro.Seen), len(want), k, at(ro.Seen, k), at(want, k), ro.Seen, ro.Ret), c)
-			return false
+			return "C03|"+kind+"|"+rd.Beh+"|"+hist, fmt.Sprintf("%s: consumer saw %d packages, expected %d; first difference at %d: got %s want %s\nall seen: %v\nreturn: %s", ctxt, len(ro.Seen), len(want), k, at(ro.Seen, k), at(want, k), ro.Seen, ro.Ret)
 		}
 		switch rd.Beh {
 		case "nil-callback":
 			// the statement fixes what is consumed, not the value a nil callback returns
 			if ro.Ret != "io.EOF" && ro.Ret != "wrapped io.EOF" && ro.Ret != "returned nil,nil" {
-				h.Violate("C03|nil-callback-return|"+hist, fmt.Sprintf("%s: nil callback must consume the response and report io.EOF, returned %q", ctxt, ro.Ret), c)
-				return false
+				return "C03|nil-callback-return|"+hist, fmt.Sprintf("%s: nil callback must consume the response and report io.EOF, returned %q", ctxt, ro.Ret)
 			}
 		case "until-err", "until-errw":
 			ne := nonEED(rx.Expected(corpus[rd.Resp]))
 			if rd.J < len(ne) && ro.Ret != "callback error" {
-				h.Violate("C03|callback-error-lost|"+hist, fmt.Sprintf("%s: callback failed at package %d, the call returned %q", ctxt, rd.J, ro.Ret), c)
-				return false
+				return "C03|callback-error-lost|"+hist, fmt.Sprintf("%s: callback failed at package %d, the call returned %q", ctxt, rd.J, ro.Ret)
 			}
 		}
 		if ro.Leftover != "none" {
-			h.Violate("C03|leftover|"+rd.Beh+"|"+rd.Resp, fmt.Sprintf("%s: after the round a package is still queued (carried over to the next response): %s", ctxt, ro.Leftover), c)
-			return false
+			return "C03|leftover|"+rd.Beh+"|"+rd.Resp, fmt.Sprintf("%s: after the round a package is still queued (carried over to the next response): %s", ctxt, ro.Leftover)
 		}
+	}
+	return "", ""
+}
+
+
+func check(c Case, obs []rx.RoundObs, o rx.Obs) bool {
+	if sig, det := judge(c, obs, o); sig != "" {
+		h.Violate(sig, det, c)
+		return false
 	}
 	return true
 }
@@ -193,6 +197,47 @@ func run(c Case) []rx.RoundObs {
 	return obs
 }
 
+// exploreSchedules runs the rounds under all schedules with at most bound deviations.
+func exploreSchedules(c Case, bound int) {
+	var obs []rx.RoundObs
+	var o rx.Obs
+	st := vrt.ExploreFn(vrt.ExploreCfg{Base: vrt.Config{Preempt: true, MaxSteps: 50000}, Bound: bound, Deadline: h.Deadline(),
+		Check: func(x *vrt.Exec) (string, string) {
+			if x.Failure != nil && x.Failure.Kind != "deadlock" {
+				return "C03|" + x.Failure.Kind, x.Failure.String()
+			}
+			if o.Setup != "" && len(obs) == 0 {
+				return "C03|setup", o.Setup
+			}
+			if sig, det := judge(c, obs, o); sig != "" {
+				return sig + "|under-schedule", det
+			}
+			if x.Failure != nil {
+				return "C03|" + x.Failure.Kind, x.Failure.String()
+			}
+			return "", ""
+		},
+		OnViolation: func(sig, det string, choices []int, x *vrt.Exec) {
+			cc := c
+			cc.Choices = choices
+			h.Violate(sig, fmt.Sprintf("schedule %v: %s", choices, det), cc)
+		}}, func(cfg vrt.Config) *vrt.Exec {
+		var x *vrt.Exec
+		obs, o, x = rx.RunRounds(cfg, corpus, c.Rounds, rx.HookCfg{})
+		return x
+	})
+	if st.Diverged != "" {
+		h.Fatal("diverged: %s", st.Diverged)
+	}
+	if st.Capped != "" {
+		h.Cap(fmt.Sprintf("schedule exploration of %+v: %s", c.Rounds, st.Capped))
+	}
+	h.EvalN(st.Execs, st.Execs)
+	h.AddTransitions(st.Steps)
+	h.AddTraces(st.Execs)
+	h.Section("schedules", st.Execs)
+}
+
 var firstRound = map[string]rx.RoundObs{}
 
 func key(r rx.Round) string { return fmt.Sprintf("%s|%d|%s|%d", r.Resp, r.Pack, r.Beh, r.J) }
@@ -208,7 +253,17 @@ func main() {
 	}
 	var rc Case
 	if h.ReplayCase(&rc) {
-		run(rc)
+		if len(rc.Choices) > 0 {
+			obs, o, x := rx.RunRounds(vrt.Config{Preempt: true, MaxSteps: 50000, Choices: rc.Choices}, corpus, rc.Rounds, rx.HookCfg{})
+			if x.Diverged != "" {
+				h.Fatal("replay diverged: %s", x.Diverged)
+			}
+			if sig, det := judge(rc, obs, o); sig != "" {
+				h.Violate(sig+"|under-schedule", det, rc)
+			}
+		} else {
+			run(rc)
+		}
 		h.ReplayReport()
 	}
 	shapes := []string{"done-final", "done-count", "rows", "two-result-sets", "returnstatus-doneproc", "eed-error-then-done", "done-more-last", "no-done-at-all",
@@ -278,6 +333,30 @@ func main() {
 			h.Section("depth-2", 1)
 		}
 	}
+	// histories of two rounds under ALL schedules with a bounded number of deviations (sender vs reader vs peer)
+	sb := 2
+	if h.Thorough {
+		sb = 3
+	}
+	firstSet := []rx.Round{{Resp: "done-final", Beh: "next"}, {Resp: "rows", Beh: "next"}, {Resp: "done-count", Beh: "until-err"}}
+	secondSet := []rx.Round{{Resp: "done-count", Beh: "next"}, {Resp: "envchange-only", Beh: "next"}, {Resp: "rows", Beh: "until-err"}, {Resp: "no-done-at-all", Beh: "next"}}
+	if h.Thorough {
+		firstSet = append(firstSet, rx.Round{Resp: "eed-mixed", Beh: "next"}, rx.Round{Resp: "done-final", Pack: 2, Beh: "until-errw"}, rx.Round{Resp: "envchange-only", Beh: "nil-callback"})
+		secondSet = append(secondSet, rx.Round{Resp: "done-final", Beh: "next"}, rx.Round{Resp: "eed-last", Beh: "until-true"}, rx.Round{Resp: "two-result-sets", Pack: 2, Beh: "until-eof", J: 2})
+	}
+	for _, a := range firstSet {
+		for _, b := range secondSet {
+			idx++
+			if !h.Mine(idx) {
+				continue
+			}
+			if h.Expired("schedule exploration cut short") {
+				break
+			}
+			exploreSchedules(Case{Rounds: []rx.Round{a, b}}, sb)
+		}
+	}
+	h.R.Extra["schedule_deviation_bound"] = sb
 	// depth 3 on a reduced alphabet
 	var red []rx.Round
 	for _, r := range all {
